@@ -130,6 +130,19 @@ def check(c):
         r = same_params(a.get_params(), b.get_params())
         if r:
             return dict(**{"class": "clone-params"}, what="clone reports different parameters: " + r)
+        # a real-valued parameter given as a numpy scalar (what numpy.linspace / a parameter grid yields): the constructor must keep
+        # the object it is given, otherwise scikit-learn's clone refuses the estimator (RuntimeError "... modifies parameter")
+        for k, v in sorted(a.get_params(deep=False).items()):
+            if isinstance(v, float) and not isinstance(v, bool):
+                a2 = mk_a()
+                given = numpy.float64(v)
+                a2.set_params(**{k: given})
+                try:
+                    b2 = clone(a2)
+                except RuntimeError as e:
+                    return dict(**{"class": "clone-refuses-numpy-scalar"}, what="clone after set_params(%s=numpy.float64(%r)): %s" % (k, v, str(e)[:160]))
+                if b2.get_params(deep=False)[k] != given:
+                    return dict(**{"class": "clone-params"}, what="clone reports %s=%r, given numpy.float64(%r)" % (k, b2.get_params(deep=False)[k], v))
         return None
     if c["op"] == "roundtrip":
         b = mk_b()
@@ -143,6 +156,17 @@ def check(c):
             oa, ob = outputs(clone(a), kind), outputs(clone(b), kind)
             if not numpy.array_equal(numpy.asarray(oa), numpy.asarray(ob)):
                 return dict(**{"class": "roundtrip-behaviour"}, what="outputs differ after the round trip")
+            # the instance itself (not a clone rebuilt from its parameters) behaves like the source, whatever it was configured with
+            # before: a differently configured one (b) and one with the same configuration but its own objects (b2)
+            b2 = mk_a()
+            b2.set_params(**mk_a().get_params(deep=True))
+            for who, inst in (("a differently configured instance", b), ("an instance of the same configuration", b2)):
+                try:
+                    oi = outputs(inst, kind)
+                except Exception as e:
+                    return dict(**{"class": "roundtrip-behaviour"}, what="%s fails after the round trip: %s: %s" % (who, type(e).__name__, str(e)[:120]))
+                if not numpy.array_equal(numpy.asarray(oa), numpy.asarray(oi)):
+                    return dict(**{"class": "roundtrip-behaviour"}, what="outputs of %s differ after the round trip" % who)
         return None
     # each-key: setting one advertised key to the value another instance reports changes that key only
     src = mk_a().get_params(deep=True)
